@@ -169,6 +169,13 @@ func (w *World) startPlugin() error {
 	ctx.StatefulSetLister = appslisters.NewStatefulSetLister(w.stsIdx)
 	ctx.DeploymentLister = appslisters.NewDeploymentLister(w.dpIdx)
 	ctx.PoolLister = galaxylisters.NewPoolLister(w.poolIdx)
+	// nodes are static: a lister that always shows them (Preempt reads it)
+	nodeIdx := cache.NewIndexer(cache.MetaNamespaceKeyFunc, cache.Indexers{})
+	for _, n := range w.Conf.Nodes {
+		nodeIdx.Add(&corev1.Node{ObjectMeta: metav1.ObjectMeta{Name: n.Name},
+			Status: corev1.NodeStatus{Addresses: []corev1.NodeAddress{{Type: corev1.NodeInternalIP, Address: IPStr(n.IP)}}}})
+	}
+	ctx.NodeLister = corelisters.NewNodeLister(nodeIdx)
 	var pools []*floatingip.FloatingIPPool
 	if err := json.Unmarshal([]byte(PoolsJSON(w.Pools)), &pools); err != nil {
 		return fmt.Errorf("configuration rejected: %v", err)
